@@ -74,9 +74,14 @@ def gen_case(rng, dyadic=True):
     lb = base
     ub = lb + width_steps * dx
     if not dyadic:
-        ub = Fraction(float(ub))
-        # float rounding must not make the interval narrower than K*dx
-        if ub - lb < K * dx:
+        # Non-dyadic floats: keep a relative margin 2^-20 above the critical width K*dx.
+        # At EXACTLY that width with x on a step multiple the one-sided row reaches the far
+        # bound exactly, and binary64 rounding of x - 3*dx can land 1 ulp outside (seen on
+        # the unchanged tree in a thorough run); the theorem is about exact arithmetic
+        # under `wide`, which then holds only up to rounding.  The dyadic family (exact
+        # arithmetic) still probes width == K*dx.
+        ub = Fraction(float(ub + K * dx * Fraction(1, 2 ** 20)))
+        if ub - lb < K * dx * (1 + Fraction(1, 2 ** 21)):
             ub = Fraction(float(lb + (width_steps + 1) * dx))
     # position relative to the bounds: exactly j steps from either, or in between
     pos = rng.choice(["at", "steps", "between", "interior"])
@@ -307,7 +312,7 @@ def grad_hess_values(ctx, rng, ncases):
                 dd = [1 if j == i else 0 for j in range(nv)]
                 want = float(exact(x0, dd))
                 ctx.count("gradient_value", gcase)
-                if abs(g[i] - want) > 1e-9 * scale / min(dx):
+                if abs(g[i] - want) > 1e-13 * scale / min(dx) + 1e-9 * abs(want):
                     ctx.fail_input("gradient inexact on polynomial: got %r want %r" %
                                    (g[i], want), dict(kind="gradient", case=gcase, i=i),
                                    key="inexact-gradient-%d" % order)
@@ -333,7 +338,7 @@ def grad_hess_values(ctx, rng, ncases):
                 dd[j] += 1
                 want = float(exact(x0, dd))
                 ctx.count("hessian_value", gcase)
-                if abs(h[i, j] - want) > 1e-9 * scale / min(dx) ** 2:
+                if abs(h[i, j] - want) > 1e-13 * scale / min(dx) ** 2 + 1e-9 * abs(want):
                     ctx.fail_input("hessian[%d,%d] inexact: got %r want %r" %
                                    (i, j, h[i, j], want),
                                    dict(kind="hessian", case=gcase, i=i, j=j),
